@@ -721,6 +721,33 @@ impl TieredEngine {
     /// Metadata is read from the canonical cold tier when available; the hot tier
     /// only serves the embedding fast path. Mirror-only drift is not returned to
     /// callers as a real document.
+    /// Point query that also returns the metadata written together with the returned vector.
+    ///
+    /// `query_with_source` and a separate metadata read are two observations: an overwrite
+    /// completing in between would pair the vector of one write with the metadata of another.
+    /// The metadata is read with the token of its vector and the answer is accepted only when
+    /// the served vector carries that token's digest; after repeated interference both come
+    /// from the cold tier under one read.
+    pub fn query_with_source_and_metadata(
+        &self,
+        doc_id: u64,
+    ) -> Option<(
+        Vec<f32>,
+        std::collections::HashMap<String, String>,
+        PointQueryTier,
+    )> {
+        for _ in 0..3 {
+            let (metadata, metadata_coherence) =
+                self.cold_tier.fetch_metadata_with_coherence(doc_id)?;
+            let (embedding, served_from) = self.query_with_source(doc_id, None)?;
+            if embedding_matches_token(&embedding, metadata_coherence) {
+                return Some((embedding, metadata, served_from));
+            }
+        }
+        self.get_document_with_metadata(doc_id)
+            .map(|(embedding, metadata)| (embedding, metadata, PointQueryTier::ColdTier))
+    }
+
     pub fn get_document_with_metadata(
         &self,
         doc_id: u64,
